@@ -17,11 +17,11 @@ HARNESSES = [
     dict(name="radius", pkg="./plugins/auth/radius/", test="TestVerifC03Radius", timeout=300,
          files=[("plugins/auth/radius/zz_verif_c03_radius_test.go", "harness/C03/zz_verif_c03_radius_test.go")]),
 ]
-# first variant = the repaired code; "relayunapproved" = /repo HEAD with the one open (known:) finding
-# ipoe-relay-reply-to-unapproved-session (only ipoer cases differ).  Every other C03 finding is fixed in /repo (last:
-# 277708f): a regression to one of them is a VIOLATION.  (The driver still accepts "defective" / "noteardown" / "heldanswer" /
-# "sbfailtwice" / "unnamedlease" = the code before e9950ea / 0709f1b / 7b3d79c / 277708f, for scratch-tree validation.)
-VARIANTS = ["repaired", "relayunapproved"]
+# every C03 finding is fixed in /repo (KNOWN_FINDINGS.txt, last: 2063a0c): the only variant is what /repo HEAD does; a
+# regression to any fixed defect is a VIOLATION.  (The driver still accepts "defective" / "noteardown" / "heldanswer" /
+# "sbfailtwice" / "unnamedlease" / "relayunapproved" = the code before e9950ea / 0709f1b / 7b3d79c / 277708f / 2063a0c, used
+# only when a patch is validated on a scratch tree.)
+VARIANTS = ["repaired"]
 MODEL_NEEDS_IMPL = True   # only for the FSM table flavour reported by the harness (see notes/C03.md)
 RULE = ("pppoe: (a) systematic: each of 16 prefixes reaching a distinct phase/FSM situation (fresh, LCP open, auth pending, "
         "network, open, renegotiated, renegotiated+pending, re-authenticating, rejected, terminated, static address, "
